@@ -683,8 +683,11 @@ def run_case(ctx, cid, P):
                 # cipher, sees ciphertext as an incomplete handshake message
                 # and waits for the rest of it
                 ctx.count("ciphertext_in_plaintext_epoch_victim_waits")
-            elif off is not None and names[off].startswith("alert(") and \
-                    cls == "remote_alert":
+            elif off is not None and cls == "remote_alert" and \
+                    any(x.startswith("alert(") for x in names[off:]):
+                # the deviant itself sent an alert at or after the offending
+                # message: surfacing it is how the victim stopped, whether
+                # or not it would have objected on its own a message later
                 # the offending record is itself an alert: surfacing it to
                 # the caller is the victim's way of stopping
                 ctx.count("alert_in_place_of_message_surfaced")
